@@ -81,6 +81,17 @@ def addGlobal (n : Nat) (v : Val) (c : Ctx) : Ctx :=
 def addLocal (n : Nat) (v : Val) (c : Ctx) : Ctx :=
   modifyTop (fun f => { f with macros := (n, v) :: f.macros }) c
 
+/-- `for context in self.contexts[1:]: context.pop(name, None)` for every name in `ns`: the
+    bindings are dropped from every frame but the global one -/
+def dropLocalsL (ns : List Nat) : Ctx → Ctx
+  | [] => []
+  | [g] => [g]
+  | f :: fs => { f with macros := f.macros.filter (fun p => !ns.contains p.1) } :: dropLocalsL ns fs
+
+/-- `Context.newdef(name, …, local=False)` (`\gdef`): a global definition replaces the meaning at
+    every group level (code after the D47 repair) -/
+def defGlobal (n : Nat) (v : Val) (c : Ctx) : Ctx := addGlobal n v (dropLocalsL [n] c)
+
 /-- `Context.__getitem__`: the meaning, defining a global `UnrecognizedMacro` on a miss -/
 def lookup (n : Nat) (c : Ctx) : Val × Ctx :=
   match find n c with
@@ -153,6 +164,7 @@ inductive Op where
   | setCat (ch k : Nat)
   | setVerbatim
   | lookup (n : Nat)
+  | gdef (n : Nat) (v : Val)
   deriving Repr
 
 def step (c : Ctx) : Op → Ctx
@@ -165,6 +177,7 @@ def step (c : Ctx) : Op → Ctx
   | .setCat ch k => setCatCtx ch k c
   | .setVerbatim => setVerbatim c
   | .lookup n => (lookup n c).2
+  | .gdef n v => defGlobal n v c
 
 def run (ops : List Op) (c : Ctx) : Ctx := ops.foldl step c
 
